@@ -80,6 +80,8 @@ class Codec:
             return arr
         if "np" in a:
             return numpy.dtype(a["dt"]).type(a["np"])
+        if "G" in a:
+            return (x for x in [self.dec(v) for v in a["G"]])
         if "FV" in a:
             from barril.basic.fraction import FractionValue
 
